@@ -58,15 +58,22 @@ Section Run.
   Qed.
 
   (** ** The end of the try block: cache check, call, write *)
+  Notation clr := (clear_prev pbytes c).
+
+  Lemma clr_cases nc fs op : clr nc fs op = fs \/ clr nc fs op = rm fs op.
+  Proof. unfold clear_prev. destruct (clear_output c); auto. destruct nc; auto. Qed.
+  Lemma clr_other nc fs op q : q <> op -> rd (clr nc fs op) q = rd fs q.
+  Proof. intros H. destruct (clr_cases nc fs op) as [-> | ->]; [reflexivity|apply rd_rm_other; assumption]. Qed.
+
   Definition tail (nc : bool) (fs : fs_t) (op : str) (ta tk : obj V) : fs_t * run V :=
     let cached : step (fs_t * option (obj V)) :=
-      if nc then SOk (fs, None)
+      if nc then SOk (clr true fs op, None)
       else match rd fs op with
-           | None => SOk (rm fs op, None)
+           | None => SOk (clr false fs op, None)
            | Some (BPickle _ b) =>
                match load b with
                | None => SRaise ELoad
-               | Some r => if valid r then SOk (fs, Some r) else SOk (rm fs op, None)
+               | Some r => if valid r then SOk (fs, Some r) else SOk (clr false fs op, None)
                end
            | Some _ => SRaise ELoad
            end in
@@ -90,6 +97,11 @@ Section Run.
     | Some _ => nc = true
     end.
 
+  Lemma prior_clr nc b fs op ta tk : prior nc fs op ta tk -> prior nc (clr b fs op) op ta tk.
+  Proof.
+    intros P. destruct (clr_cases b fs op) as [-> | ->]; [exact P|]. unfold prior. rewrite rd_rm_same. exact I.
+  Qed.
+
   Lemma tail_spec nc fs op ta tk fs' r :
     prior nc fs op ta tk -> tail nc fs op ta tk = (fs', r) ->
     match r with
@@ -100,9 +112,9 @@ Section Run.
     /\ (forall q, q <> op -> rd fs' q = rd fs q)
     /\ prior nc fs' op ta tk.
   Proof.
-    unfold tail, prior. intros P H.
+    unfold tail. intros P H.
     assert (CALL : forall fs1, (forall q, q <> op -> rd fs1 q = rd fs q) ->
-              (nc = true \/ rd fs1 op = None) ->
+              prior nc fs1 op ta tk ->
               match f ta tk with
               | Exc _ e => (fs1, Raised V e)
               | Ret _ r0 => (wr fs1 op (BP (dump r0)), Returned V r0)
@@ -113,34 +125,62 @@ Section Run.
               | Unmodelled _ => False
               end
               /\ (forall q, q <> op -> rd fs' q = rd fs q)
-              /\ match rd fs' op with
-                 | None => True
-                 | Some (BPickle _ b) => nc = true \/ exists r, load b = Some r /\ (valid r = true -> f ta tk = Ret V r)
-                 | Some _ => nc = true
-                 end).
-    { intros fs1 FR NC E. destruct (f ta tk) as [r0|e0] eqn:Ef; inversion E; subst; clear E.
+              /\ prior nc fs' op ta tk).
+    { intros fs1 FR P1 E. destruct (f ta tk) as [r0|e0] eqn:Ef; inversion E; subst; clear E.
       - split; [split; [reflexivity|]|split].
         + exists (dump r0). rewrite rd_wr_same. auto.
         + intros q Hq. rewrite rd_wr_other by assumption. apply FR. assumption.
-        + rewrite rd_wr_same. right. exists r0. auto.
-      - split; [reflexivity|split; [assumption|]].
-        destruct NC as [NC | NC]; [|rewrite NC; exact I].
-        subst nc. destruct (rd fs' op) as [[b| |]|]; auto. }
+        + unfold prior. rewrite rd_wr_same. right. exists r0. auto.
+      - split; [reflexivity|split; assumption]. }
     destruct nc.
-    - apply (CALL fs); auto.
-    - destruct (rd fs op) as [[b| |]|] eqn:Eo.
+    - apply (CALL (clr true fs op)); auto using prior_clr. intros q Hq. apply clr_other. assumption.
+    - unfold prior in P. destruct (rd fs op) as [[b| |]|] eqn:Eo.
       + destruct P as [P|[r0 [L Vd]]]; [discriminate|]. rewrite L in H.
         destruct (valid r0) eqn:Ev.
         * inversion H; subst; clear H. split; [split; [auto|exists b; auto]|split; [auto|]].
-          rewrite Eo. right. exists r0. auto.
-        * apply (CALL (rm fs op)); auto.
-          -- intros q Hq. apply rd_rm_other. assumption.
-          -- right. apply rd_rm_same.
+          unfold prior. rewrite Eo. right. exists r0. auto.
+        * apply (CALL (clr false fs op)); auto.
+          -- intros q Hq. apply clr_other. assumption.
+          -- apply prior_clr. unfold prior. rewrite Eo. right. exists r0.
+             split; [exact L|intros X; rewrite Ev in X; discriminate X].
       + discriminate P.
       + discriminate P.
-      + apply (CALL (rm fs op)); auto.
-        * intros q Hq. apply rd_rm_other. assumption.
-        * right. apply rd_rm_same.
+      + apply (CALL (clr false fs op)); auto.
+        * intros q Hq. apply clr_other. assumption.
+        * apply prior_clr. unfold prior. rewrite Eo. exact I.
+  Qed.
+
+  (** a clearing configuration: the previous output is removed on every path that calls the task *)
+  Definition clears (nc : bool) : Prop :=
+    clear_output c = ClearAlways \/ (clear_output c = ClearCached /\ nc = false).
+
+  Lemma clr_rm nc fs op : clears nc -> clr nc fs op = rm fs op.
+  Proof. unfold clears, clear_prev. intros [-> | [-> ->]]; reflexivity. Qed.
+
+  (** after the try block: an output file exists iff the run succeeded *)
+  Lemma tail_out_iff nc fs op ta tk fs' r :
+    clears nc -> prior nc fs op ta tk -> tail nc fs op ta tk = (fs', r) ->
+    match r with
+    | Returned _ _ => rd fs' op <> None
+    | Raised _ _ => rd fs' op = None
+    | Unmodelled _ => False
+    end.
+  Proof.
+    unfold tail. intros C P H.
+    assert (CALL : match f ta tk with
+              | Exc _ e => (rm fs op, Raised V e)
+              | Ret _ r0 => (wr (rm fs op) op (BP (dump r0)), Returned V r0)
+              end = (fs', r) ->
+              match r with Returned _ _ => rd fs' op <> None | Raised _ _ => rd fs' op = None | Unmodelled _ => False end).
+    { intros E. destruct (f ta tk); inversion E; subst; [rewrite rd_wr_same; discriminate|apply rd_rm_same]. }
+    destruct nc.
+    - rewrite (clr_rm true fs op C) in H. apply CALL. exact H.
+    - rewrite (clr_rm false fs op C) in H. unfold prior in P. destruct (rd fs op) as [[b| |]|] eqn:Eo.
+      + destruct P as [P|[r0 [L _]]]; [discriminate|]. rewrite L in H.
+        destruct (valid r0); [inversion H; subst; rewrite Eo; discriminate|apply CALL; exact H].
+      + discriminate P.
+      + discriminate P.
+      + apply CALL. exact H.
   Qed.
 
   (** the error handler around the try block, for an error path [ep] different from [op] *)
@@ -169,6 +209,37 @@ Section Run.
       + unfold prior in *. rewrite rd_wr_other by assumption. exact P2.
   Qed.
 
+  (** the same for executors that judge the job by its scratch files; also: exactly one of the
+      output / error file exists afterwards, the output iff the run succeeded *)
+  Lemma wrap_by_output nc fs h ep op ta tk fs2 r :
+    op = outp h -> ep = errp h -> Name h -> clears nc ->
+    prior nc fs op ta tk ->
+    tail nc (rm fs ep) op ta tk = (fs2, r) ->
+    let fs3 := match r with Raised _ e => wr fs2 ep (BP (dump (Seq [e; tb_of e]))) | _ => fs2 end in
+    collect_by_output V pbytes load c prefix h fs3 = match f ta tk with Ret _ x => CDone V x | Exc _ e => CReject V e end
+    /\ match r with
+       | Returned _ _ => rd fs3 op <> None /\ rd fs3 ep = None
+       | _ => rd fs3 op = None /\ rd fs3 ep <> None
+       end.
+  Proof.
+    intros -> -> Hh C P T.
+    assert (NE : outp h <> errp h) by (apply out_err_neq; assumption).
+    assert (NE' : errp h <> outp h) by (intro X; apply NE; symmetry; exact X).
+    assert (P1 : prior nc (rm fs (errp h)) (outp h) ta tk).
+    { unfold prior in *. rewrite rd_rm_other by assumption. exact P. }
+    destruct (tail_spec _ _ _ _ _ _ _ P1 T) as [R [FR _]].
+    pose proof (tail_out_iff _ _ _ _ _ _ _ C P1 T) as O.
+    destruct r as [x|e|]; [| |contradiction]; cbv zeta.
+    - destruct R as [Ef [b [Rb Lb]]]. rewrite Ef. split.
+      + unfold collect_by_output, parse_job_result. fold (outp h). rewrite Rb, Lb. reflexivity.
+      + split; [exact O|]. rewrite FR by assumption. apply rd_rm_same.
+    - rewrite R. split.
+      + unfold collect_by_output, parse_job_result. fold (outp h).
+        rewrite rd_wr_other by assumption. rewrite O.
+        unfold parse_job_error. fold (errp h). rewrite rd_wr_same, RT. reflexivity.
+      + split; [rewrite rd_wr_other by assumption; exact O|rewrite rd_wr_same; discriminate].
+  Qed.
+
   (** ** One job through the single-job protocol *)
   Notation oneshot' := (oneshot V pbytes dump load f valid tb_of c).
 
@@ -191,7 +262,7 @@ Section Run.
     fold (errp (j_hash j)).
     set (fs0 := write_single V pbytes dump c prefix j fs) in *.
     assert (NIE : inp (j_hash j) <> errp (j_hash j)) by (apply job_file_neq; try solve [apply OK]; assumption).
-    assert (B : oneshot_body V pbytes dump load f valid (args_single c prefix (j_hash j) nc) 0 (rm fs0 (errp (j_hash j)))
+    assert (B : oneshot_body V pbytes dump load f valid c (args_single c prefix (j_hash j) nc) 0 (rm fs0 (errp (j_hash j)))
                 = tail nc (rm fs0 (errp (j_hash j))) (outp (j_hash j)) (j_args j) (j_kwargs j)).
     { unfold oneshot_body. cbn [args_single a_array a_output a_input a_no_cache].
       fold (inp (j_hash j)). unfold read_input.
@@ -221,14 +292,34 @@ Section Run.
     unfold local. destruct r2; simpl snd; exact C.
   Qed.
 
+  Definition one_of_out_err (fs : fs_t) (h : str) : Prop :=
+    (rd fs (outp h) <> None /\ rd fs (errp h) = None) \/ (rd fs (outp h) = None /\ rd fs (errp h) <> None).
+
+  Theorem single_by_output nc (j : job V) fs :
+    Name (j_hash j) -> clears nc -> prior_ok nc j fs ->
+    let fs' := fst (remote_single V pbytes dump load f valid tb_of c prefix nc j fs) in
+    collect_by_output V pbytes load c prefix (j_hash j) fs' = local V f j /\ one_of_out_err fs' (j_hash j).
+  Proof.
+    intros Hh C P. unfold remote_single. rewrite (single_run_form nc j fs Hh).
+    set (fs0 := write_single V pbytes dump c prefix j fs) in *.
+    assert (P0 : prior nc fs0 (outp (j_hash j)) (j_args j) (j_kwargs j)).
+    { unfold prior_ok, prior in *. unfold fs0. rewrite write_single_out by assumption. exact P. }
+    destruct (tail nc (rm fs0 (errp (j_hash j))) (outp (j_hash j)) (j_args j) (j_kwargs j)) as [fs2 r2] eqn:T.
+    pose proof (wrap_by_output nc fs0 (j_hash j) _ _ _ _ fs2 r2 eq_refl eq_refl Hh C P0 T) as [A B].
+    cbv zeta in A, B. unfold local, one_of_out_err. destruct r2; simpl fst; (split; [exact A|tauto]).
+  Qed.
+
   (** an attempt that raises leaves no output file behind (so it cannot feed the cache of a later
       attempt of the same evaluation hash) *)
   Lemma tail_exc_absent nc fs op ta tk fs' r e :
     rd fs op = None -> f ta tk = Exc V e -> tail nc fs op ta tk = (fs', r) -> rd fs' op = None /\ r = Raised V e.
   Proof.
-    unfold tail. intros H Hf T. destruct nc.
+    unfold tail. intros H Hf T.
+    assert (A : forall b, rd (clr b fs op) op = None).
+    { intros b. destruct (clr_cases b fs op) as [-> | ->]; [exact H|apply rd_rm_same]. }
+    destruct nc.
     - rewrite Hf in T. inversion T; subst. auto.
-    - rewrite H, Hf in T. inversion T; subst. split; [apply rd_rm_same|reflexivity].
+    - rewrite H, Hf in T. inversion T; subst. auto.
   Qed.
 
   Theorem single_exc_keeps_fresh nc (j : job V) fs e :
@@ -337,7 +428,7 @@ Section Run.
     rewrite (nth_map (fun j => errp (j_hash j)) _ _ _ Hn) in E.
     assert (NAI : AI <> errp (j_hash j)) by (apply arr_neq_job; try solve [apply OK]; assumption).
     assert (NAO : AO <> errp (j_hash j)) by (apply arr_neq_job; try solve [apply OK]; assumption).
-    assert (B : oneshot_body V pbytes dump load f valid (args_array c prefix aid nc) (N.of_nat i) (rm fs (errp (j_hash j)))
+    assert (B : oneshot_body V pbytes dump load f valid c (args_array c prefix aid nc) (N.of_nat i) (rm fs (errp (j_hash j)))
                 = tail nc (rm fs (errp (j_hash j))) (outp (j_hash j)) (j_args j) (j_kwargs j)).
     { unfold oneshot_body. cbn [args_array a_array a_output a_input a_no_cache].
       fold AO AI. unfold read_spec, read_input.
@@ -368,6 +459,46 @@ Section Run.
           rewrite FR; [apply (inv_prior _ I j' Hj')| |].
           -- intro X. apply (job_file_inj c OK) in X; try assumption; try solve [apply OK]. tauto.
           -- apply out_err_neq; assumption.
+  Qed.
+
+  Lemma run_elem_form env i j fs :
+    Inv fs -> nth_error jobs i = Some j -> get_index c env None = IdxOk (N.of_nat i) ->
+    run_elem V pbytes dump load f valid tb_of c prefix aid nc env fs =
+    match tail nc (rm fs (errp (j_hash j))) (outp (j_hash j)) (j_args j) (j_kwargs j) with
+    | (fs2, Raised _ e) => (wr fs2 (errp (j_hash j)) (BP (dump (Seq [e; tb_of e]))), Raised V e)
+    | other => other
+    end.
+  Proof.
+    intros I Hn Hidx. unfold run_elem, oneshot. cbn [args_array a_array a_error a_rank_env].
+    rewrite Hidx. fold AE.
+    assert (Hj : In j jobs) by (eapply nth_error_In; eassumption).
+    assert (Hh : Name (j_hash j)) by (rewrite Forall_forall in HASHES; apply HASHES; assumption).
+    unfold read_spec. rewrite (inv_err _ I), Nat2N.id.
+    rewrite (nth_map (fun j => errp (j_hash j)) _ _ _ Hn).
+    assert (NAI : AI <> errp (j_hash j)) by (apply arr_neq_job; try solve [apply OK]; assumption).
+    assert (NAO : AO <> errp (j_hash j)) by (apply arr_neq_job; try solve [apply OK]; assumption).
+    assert (B : oneshot_body V pbytes dump load f valid c (args_array c prefix aid nc) (N.of_nat i) (rm fs (errp (j_hash j)))
+                = tail nc (rm fs (errp (j_hash j))) (outp (j_hash j)) (j_args j) (j_kwargs j)).
+    { unfold oneshot_body. cbn [args_array a_array a_output a_input a_no_cache].
+      fold AO AI. unfold read_spec, read_input.
+      rewrite !rd_rm_other by assumption. rewrite (inv_out _ I), (inv_in _ I), RT, Nat2N.id.
+      rewrite (nth_map (fun j => outp (j_hash j)) _ _ _ Hn).
+      rewrite (nth_map (@j_args V) _ _ _ Hn), (nth_map (@j_kwargs V) _ _ _ Hn).
+      unfold tail. destruct nc; reflexivity. }
+    rewrite B. reflexivity.
+  Qed.
+
+  Theorem run_elem_by_output env i j fs :
+    Inv fs -> nth_error jobs i = Some j -> get_index c env None = IdxOk (N.of_nat i) -> clears nc ->
+    let fs' := fst (run_elem V pbytes dump load f valid tb_of c prefix aid nc env fs) in
+    collect_by_output V pbytes load c prefix (j_hash j) fs' = local V f j /\ one_of_out_err fs' (j_hash j).
+  Proof.
+    intros I Hn Hidx C. rewrite (run_elem_form env i j fs I Hn Hidx).
+    assert (Hj : In j jobs) by (eapply nth_error_In; eassumption).
+    assert (Hh : Name (j_hash j)) by (rewrite Forall_forall in HASHES; apply HASHES; assumption).
+    destruct (tail nc (rm fs (errp (j_hash j))) (outp (j_hash j)) (j_args j) (j_kwargs j)) as [fs2 r2] eqn:T.
+    pose proof (wrap_by_output nc fs (j_hash j) _ _ _ _ fs2 r2 eq_refl eq_refl Hh C (inv_prior _ I j Hj) T) as [A B].
+    cbv zeta in A, B. unfold local, one_of_out_err. destruct r2; simpl fst; (split; [exact A|tauto]).
   Qed.
 
   (** any sequential schedule of element runs (any order, repetitions = retries) *)
@@ -403,6 +534,20 @@ Section Run.
     destruct (run_elem V pbytes dump load f valid tb_of c prefix aid nc (envs i) fs) as [fs' r] eqn:E.
     assert (Hi : i < List.length jobs) by (apply nth_error_Some; congruence).
     destruct (run_elem_spec (envs i) i j fs fs' r I Hn (ENVS i Hi) E) as [C [FR _]]. auto.
+  Qed.
+
+  Theorem array_elem_by_output fs0 inc before i j :
+    (forall j, In j jobs -> prior_ok nc j fs0) ->
+    Forall (fun i => i < List.length jobs) before ->
+    nth_error jobs i = Some j -> clears nc ->
+    let fs := run_seq before (write_array V pbytes dump c prefix aid jobs inc fs0) in
+    let fs' := fst (run_elem V pbytes dump load f valid tb_of c prefix aid nc (envs i) fs) in
+    collect_by_output V pbytes load c prefix (j_hash j) fs' = local V f j /\ one_of_out_err fs' (j_hash j).
+  Proof.
+    intros P Hb Hn C fs.
+    assert (I : Inv fs) by (apply run_seq_inv; [assumption|apply write_array_inv; assumption]).
+    assert (Hi : i < List.length jobs) by (apply nth_error_Some; congruence).
+    exact (run_elem_by_output (envs i) i j fs I Hn (ENVS i Hi) C).
   Qed.
 
   (** the eval-hash file pairs array index i with the hash of the job whose arguments element i runs *)
